@@ -2,7 +2,7 @@
 #[cfg(not(kani))]
 use crate::shim as kani;
 use crate::chess::verif_hooks::{GameState, Piece, PieceType, Position};
-use crate::chess::{zobrist, Player};
+use crate::chess::{zobrist, Game, Player};
 use crate::glue::*;
 use crate::spec;
 use std::cell::Cell;
@@ -39,4 +39,193 @@ pub fn c04a_state_side_empty_keys_pinned_to_file() {
     assert!(GameState::verif_from_bits(b).hash() == spec::key_at(2 + 8 * b as usize));
     assert!(zobrist::BLACK_TO_MOVE == spec::key_at(0));
     assert!(zobrist::EMPTY_PLACE == spec::key_at(1));
+}
+
+// ------------------------------------------------------------------------------------------
+// C05: every single feature has its own key (with C04's "hash = xor of feature keys" this is
+// single-feature sensitivity for every position).
+// ------------------------------------------------------------------------------------------
+
+fn real_square_key(c: u8, sq: usize) -> u64 {
+    match code_piece(c) {
+        None => zobrist::EMPTY_PLACE,
+        Some(piece) => piece.hash(position(sq)),
+    }
+}
+
+#[cfg_attr(kani, kani::proof)]
+#[cfg_attr(kani, kani::unwind(9))]
+pub fn c05_square_content_changes_key() {
+    let sq = any_square();
+    let a: u8 = kani::any();
+    let b: u8 = kani::any();
+    kani::assume(a <= 12 && b <= 12 && a != b);
+    assert!(real_square_key(a, sq) != real_square_key(b, sq), "[C05] two different contents of a square share a key");
+}
+
+#[cfg_attr(kani, kani::proof)]
+#[cfg_attr(kani, kani::unwind(9))]
+pub fn c05_state_and_side_change_key() {
+    let x: u8 = kani::any();
+    let y: u8 = kani::any();
+    kani::assume(x != y);
+    assert!(
+        GameState::verif_from_bits(x).hash() != GameState::verif_from_bits(y).hash(),
+        "[C05] two different castling-right / e.p. states share a key"
+    );
+    assert!(zobrist::BLACK_TO_MOVE != 0, "[C05] the side to move does not change the hash");
+}
+
+/// The state byte is the features themselves: four right bits and the e.p. file, read back by
+/// the real accessors (so a right or the e.p. file cannot be left out of the state key).
+#[cfg_attr(kani, kani::proof)]
+#[cfg_attr(kani, kani::unwind(9))]
+pub fn c05_state_byte_is_the_features() {
+    let b: u8 = kani::any();
+    let s = GameState::verif_from_bits(b);
+    assert!(s.white_king_castling() == (b & 16 != 0), "[C05] white king-side right is not bit 16 of the state");
+    assert!(s.white_queen_castling() == (b & 32 != 0), "[C05] white queen-side right is not bit 32 of the state");
+    assert!(s.black_king_castling() == (b & 64 != 0), "[C05] black king-side right is not bit 64 of the state");
+    assert!(s.black_queen_castling() == (b & 128 != 0), "[C05] black queen-side right is not bit 128 of the state");
+    assert!(s.en_passant() == (b & 15) as i8, "[C05] e.p. file is not the low nibble of the state");
+    // setters change exactly their own feature
+    let f: u8 = kani::any();
+    kani::assume(f <= 8);
+    let mut t = s;
+    t.set_en_passant(f as i8);
+    assert!(t.verif_bits() == (b & 0xF0) | f, "[C05] setting the e.p. file disturbs the rights");
+    let mut t = s;
+    t.set_white_king_castling_false();
+    assert!(t.verif_bits() == b & !16);
+    let mut t = s;
+    t.set_white_queen_castling_false();
+    assert!(t.verif_bits() == b & !32);
+    let mut t = s;
+    t.set_black_king_castling_false();
+    assert!(t.verif_bits() == b & !64);
+    let mut t = s;
+    t.set_black_queen_castling_false();
+    assert!(t.verif_bits() == b & !128);
+    let mut t = s;
+    t.set_white_king_castling_true();
+    assert!(t.verif_bits() == b | 16);
+    let mut t = s;
+    t.set_white_queen_castling_true();
+    assert!(t.verif_bits() == b | 32);
+    let mut t = s;
+    t.set_black_king_castling_true();
+    assert!(t.verif_bits() == b | 64);
+    let mut t = s;
+    t.set_black_queen_castling_true();
+    assert!(t.verif_bits() == b | 128);
+}
+
+// ------------------------------------------------------------------------------------------
+// C16: the per-piece value is the table entry (rank flipped for White, negated for Black),
+// colour-symmetric; the phase switch keeps "score = piece-square sum under the installed tables".
+// ------------------------------------------------------------------------------------------
+
+fn cells(endgame: bool) -> [Cell<&'static [i16; 64]>; 6] {
+    let t = tables(endgame);
+    [Cell::new(t[0]), Cell::new(t[1]), Cell::new(t[2]), Cell::new(t[3]), Cell::new(t[4]), Cell::new(t[5])]
+}
+
+#[cfg_attr(kani, kani::proof)]
+#[cfg_attr(kani, kani::unwind(9))]
+pub fn c16a_piece_value_is_table_entry() {
+    let c = any_code();
+    let sq = any_square();
+    let endgame: bool = kani::any();
+    let got = code_piece(c).unwrap().score(position(sq), &cells(endgame));
+    assert!(got == spec::pst(&tables(endgame), c, sq), "[C16] piece value is not the piece-square table entry");
+    // colour mirror: the same piece of the other colour on the vertically mirrored square
+    let mc = if c <= 6 { c + 6 } else { c - 6 };
+    let msq = (7 - sq / 8) * 8 + sq % 8;
+    let mirrored = code_piece(mc).unwrap().score(position(msq), &cells(endgame));
+    assert!(mirrored == -got, "[C16] the colour-mirrored piece does not have the negated value");
+}
+
+/// The phase update: afterwards the caches still agree with the board under the tables NOW
+/// installed, and score - piece-square-sum(installed tables) is unchanged.
+/// Boards: the two kings on the given squares plus three squares of arbitrary content (the
+/// material sum that decides the phase is then cheap to evaluate); `full` adds the complete
+/// starting material so that the middlegame side of the threshold is exercised too.
+pub fn phase_body(wk: usize, bk: usize, full: bool) {
+    let mut board = [spec::EMPTY; 64];
+    if full {
+        let back = [spec::ROOK, spec::KNIGHT, spec::BISHOP, spec::QUEEN, spec::KING, spec::BISHOP, spec::KNIGHT, spec::ROOK];
+        let mut c = 0;
+        while c < 8 {
+            board[c] = spec::code(back[c], false);
+            board[8 + c] = spec::code(spec::PAWN, false);
+            board[48 + c] = spec::code(spec::PAWN, true);
+            board[56 + c] = spec::code(back[c], true);
+            c += 1;
+        }
+    } else {
+        board[wk] = spec::code(spec::KING, false);
+        board[bk] = spec::code(spec::KING, true);
+    }
+    for sq in [18usize, 29, 43] {
+        if sq != wk && sq != bk {
+            let x: u8 = kani::any();
+            kani::assume(x <= 12 && spec::kind_of_or(x, 99) != spec::KING);
+            board[sq] = x;
+        }
+    }
+    let p = spec::Pos { board, white_to_move: kani::any(), castle: [false; 4], ep: 8 };
+    let score: i16 = kani::any();
+    kani::assume(score >= -crate::h_k::SCORE_BOUND && score <= crate::h_k::SCORE_BOUND);
+    let start_endgame: bool = kani::any();
+    let mut game = build_game(&p, 0, score, start_endgame, 1, 0);
+    let before = score.wrapping_sub(spec::score(&tables(start_endgame), &p.board));
+    game.update_phase();
+    let now = game.verif_piece_score_tables();
+    let after = game.score().wrapping_sub(spec::score(&now, &p.board));
+    assert!(after == before, "[C16] after the phase update the score is no longer the piece-square sum under the installed tables");
+    assert!(rep_holds(&game), "[C16] after the phase update the per-square caches disagree with the installed tables");
+    assert!(
+        std::ptr::eq(now[5], tables(true)[5]) || std::ptr::eq(now[5], tables(false)[5]),
+        "[C16] king table is neither the middlegame nor the endgame table"
+    );
+    let q = spec_pos(&game);
+    let mut same = q.white_to_move == p.white_to_move && q.ep == p.ep;
+    let mut r = 0;
+    while r < 8 {
+        let mut c = 0;
+        while c < 8 {
+            same &= q.board[r * 8 + c] == p.board[r * 8 + c];
+            c += 1;
+        }
+        r += 1;
+    }
+    assert!(same, "[C03] the phase update changes the position");
+    std::mem::forget(game);
+}
+
+#[cfg_attr(kani, kani::proof)]
+#[cfg_attr(kani, kani::unwind(9))]
+pub fn c16d_phase_switch_kings_e1_e8() {
+    phase_body(4, 60, false)
+}
+
+#[cfg_attr(kani, kani::proof)]
+#[cfg_attr(kani, kani::unwind(9))]
+pub fn c16d_phase_switch_kings_d4_f6() {
+    phase_body(27, 45, false)
+}
+
+#[cfg_attr(kani, kani::proof)]
+#[cfg_attr(kani, kani::unwind(9))]
+pub fn c16d_phase_switch_full_material() {
+    phase_body(4, 60, true)
+}
+
+#[cfg_attr(kani, kani::proof)]
+#[cfg_attr(kani, kani::unwind(9))]
+pub fn unit_witness() {
+    c04a_piece_key_pinned_to_file();
+    c16a_piece_value_is_table_entry();
+    c05_state_and_side_change_key();
+    assert!(false, "[witness] end of harness reached");
 }
